@@ -22,6 +22,16 @@ CLAIMS['C05'] = dict(
    text='Decides for every path of every function of package zed the structural conditions type canonicity rests on: (L1) Context.byID/toType/toValue/typedefs and Mapper.types are only touched with mu held (write lock for writes), requires-held helpers only called with it; (L2) no call while a deferred unlock is pending on a released mutex; (L3) toType miss, ID allocation and insert happen in one critical section for every enterWithLock call site; (L4) no reentrant acquisition; (W1) toValue only receives pool-owned or cloned bytes, for a freshly constructed type or under a failed presence test (never a caller slice, never an overwrite); (P1) union members sorted by CompareTypes before the type value is computed; (P2) a tvPool buffer is never both recycled and entered; (K1) encoder/decoder type-value tags agree. Does not decide structural-equality <=> pointer-equality as such, CompareTypes being a total order, or def/ref name rebinding between concurrent decoders.',
    note='One receiver per method (mutex instance = receiver); closures run synchronously under the state at their creation unless started with go.',
    ref='DESIGN.md §2 C05')
+CLAIMS['C01'] = dict(
+   technique='SSA dominance / avoid-reachability over select states and channel fields, pooled-buffer typestate, borrowed-slice escape analysis, encoder/decoder table agreement',
+   text='Decides, for every path of the anchored zngio writer/reader functions, the structural conditions the ZNG round trip relies on: a work item is dispatched only in the success arm of queueing its result channel (O1: stream order under any worker schedule); types frame dominates values frame dominates typedef-buffer flush (O2); the type scope is reset on both sides exactly at EOS (O3); every work item gets exactly one send or a close, channels are buffered and every blocking select is cancellable (O4); the pooled frame buffer is released exactly once iff no batch is returned (O5); peeker bytes escape only through a copy (O6); Encoder.encode covers every complex zed.Type and typedef/frame codes agree between writer and reader (K1). Does not decide byte-level inverse-ness of encode/decode, LZ4, tag encoding or Mapper translation.',
+   note='Channel identity by struct field (work.resultCh, scanner.resultChCh); synchronous callees do not retain borrowed slices unless they are constructors.',
+   ref='DESIGN.md §2 C01')
+CLAIMS['C11'] = dict(
+   technique='goroutine-root panic containment over the static+CHA call graph, untrusted-integer taint to allocation sinks with direction-aware dominating bounds, sign-conversion checks, decoder-result contradiction rule, channel-protocol typestate',
+   text='Decides structural clauses of crash/hang freedom on untrusted input for all paths: (G1) every goroutine started on the reader path has a deferred recover or reaches no explicit panic / panicking codec primitive outside one; (A1/A2/A3) integers originating in uvarints, fixed-width reads or VNG metadata are upper-bounded (by something other than MaxInt) before they size an allocation, and range-checked when converted uint64->int; header section sizes are each bounded; (N1) a decoder result is used only where its nil-rest failure indicator was tested; (P1) input-dependent type-context lookup errors are returned, not raised; (O4) no reader goroutine or consumer can be left blocked. Twelve VNG-reader violations are genuine and recorded as known findings. Does not decide absence of implicit runtime panics (index out of range) on all byte strings, termination of text parsers, or compile-time panics of the semantic analyzer.',
+   note='Stdlib interface implementations do not panic; a function with a deferred recover contains its synchronous callees; taint is flow-insensitive across fields except the enumerated metadata structs.',
+   ref='DESIGN.md §2 C11')
 NA = {}
 for i in range(1, 21):
     pid = 'C%02d' % i
